@@ -866,7 +866,27 @@ def _status_valuation(K, OLD, NEW, V, status):
         for a, b in (('%s[%s]' % (OLD, K), V), (V, '%s[%s]' % (OLD, K)), ('%s[%s]' % (OLD, K), '%s[%s]' % (NEW, K)), ('%s[%s]' % (NEW, K), '%s[%s]' % (OLD, K))):
             ex['%s != %s' % (a, b)] = not same
             ex['%s == %s' % (a, b)] = same
-    return flag_valuation({}, ex)
+    base = flag_valuation({}, ex)
+    if not (in_old and in_new):
+        return base
+    olds = ['%s[%s]' % (OLD, K)]
+    news = [V, '%s[%s]' % (NEW, K)]
+
+    def val(atom):
+        r = base(atom)
+        if r is not None:
+            return r
+        # the two values compared through a projection (`x.get_initial_param()`, `str(x)[:2]`, `x.to_list()[0]`): equal values have equal
+        # projections; different values (38;5;1 and 38;5;2) may have equal projections too -- decided as "equal", the case the projection cannot tell
+        if isinstance(atom, ast.Compare) and len(atom.ops) == 1 and isinstance(atom.ops[0], (ast.Eq, ast.NotEq)):
+            l, r_ = norm(atom.left), norm(atom.comparators[0])
+            for o_ in olds:
+                for n_ in news:
+                    for a_, b_ in ((l, r_), (r_, l)):
+                        if o_ in a_ and n_ in b_ and a_ != o_ and a_.replace(o_, '@') == b_.replace(n_, '@'):
+                            return isinstance(atom.ops[0], ast.Eq)
+        return None
+    return val
 
 
 @rule('F6', 'dict-diff: per key status {only-old, only-new, both-same, both-different} the state diff of set_ansi_str and of the '
